@@ -180,7 +180,7 @@ def _socket_pending(ip, s, args, kw):
     g = sock_state(st, s)
     if 'tls' not in g:
         g['tls'] = fresh('tls', I)
-        st.assume(g['tls'] >= 0)
+        st.assume(g['tls'] >= 0, g['tls'] <= 16384)     # at most one decrypted TLS record
     st.ghost.setdefault('io_log', []).append(('pending', s.key))
     return g['tls']
 
